@@ -146,17 +146,18 @@ PROPS['C20'] = {
 
 PROPS['C19'] = {
     'level': 'other',
-    'units': ['C19/qindex', 'C19/qgrams'],
+    'units': ['C19/qindex', 'C19/qgrams', 'C19/lcskpp', 'C19/sdpkpp'],
     'kani': [],
     'oracle': 'C19',
     'decided': ['QGramIndex::with_max_count builds, for ANY alphabet size (table sized by the bit-packed code space), address/pos tables such that the slice of code g holds exactly the ascending text positions of g (slot r = r-th occurrence), or nothing when g occurs more than max_count times (counting-sort proof over the code sequence)',
                 'qgram_matches returns that slice', 'matches(): no index/overflow/underflow failure for any pattern, including patterns overhanging the text start (signed diagonal)',
                 'q-gram coding (unit C19/qgrams, the real RankTransform::{new, get, get_width, qgrams} and QGrams::{qgram_push, next}): the rank transform is the order-preserving bijection onto 0..|A|; next() returns the bit-packed code enc(ranks of the consumed text) <= mask, None exactly at the end; qgrams() positions the iterator after the q-1 warm-up symbols with bits = ceil(log2|A|) and the all-ones mask corner at q*bits == 64; the coding is INJECTIVE on q-grams (field lemma by bit_vector + induction)'],
+    'decided_extra': ['sparse::lcskpp and sparse::sdpkpp (the real code incl. the Fenwick tree instantiated at the value types (u32,u32) resp. PrevPtr, PrevPtr::new): the returned path is a non-empty chain of valid match indices, each k-mer continuing its predecessor on the diagonal or starting at or after its end in both coordinates (event-order argument: an end event precedes every start event that can use it; Fenwick selection contract: a prefix query returns the default or a value set at an index within the prefix); traceback terminates (x strictly decreases); all u32 arithmetic in range under the `fits` bounds'],
     'undecided': [
-                  'exact_matches maximality, matches() hit counts (HashMap entry API has no model)', 'find_kmer_matches*, lcskpp optimality, sdpkpp*, expand_kmer_matches'],
+                  'exact_matches maximality, matches() hit counts (HashMap entry API has no model)', 'find_kmer_matches*, optimality of the lcskpp/sdpkpp chains (only chain validity is proved), expand_kmer_matches'],
     'trusted': ['in C19/qindex the q-gram iterator is a stub whose contract (codes are a function of (ranks, q, text), every code <= mask) is the one proved in C19/qgrams', 'vec_map::VecMap, bit_set::BitSet (ascending iteration) stubs; ceil_log2 float stub; usize::checked_shl spec', 'HashMap entry API stub (no functional spec)', 'slice::Iter::clone keeps the remaining items',
-                'one listed assume: a diagonal hit counter stays below 2^64'],
-    'level_text': 'Verus proves the index tables of the real with_max_count (counting sort over the code sequence, any alphabet size) and panic-freedom of matches(); coding injectivity, maximal exact matches and the chaining functions are not decided.',
+                'one listed assume: a diagonal hit counter stays below 2^64', 'lcskpp/sdpkpp units: std specs for slice sort_unstable (permutation, ascending by the lexicographic tuple order of vstd), reverse, binary_search (Ok(i) => equal element), cmp::max (returns one of its arguments); derived Default/Ord of PrevPtr (all-zero default; only selection is used of the order)'],
+    'level_text': 'Verus proves the index tables of the real with_max_count (counting sort over the code sequence, any alphabet size) panic-freedom of matches(), the q-gram coding (injective), and chain validity / termination / overflow-freedom of lcskpp and sdpkpp; maximal exact matches and chain optimality are not decided.',
     'level_note': 'Level other (partial). Trusted: q-gram iterator stub contract, HashMap stub, Verus/Z3.',
 }
 
@@ -191,19 +192,20 @@ PROPS['C01'] = {
 
 PROPS['C02'] = {
     'level': 'other',
-    'units': ['C02/band', 'C02/sparse', 'C01/pairwise'],
+    'units': ['C02/band', 'C02/sparse', 'C19/lcskpp', 'C19/sdpkpp', 'C01/pairwise'],
     'kani': [],
     'oracle': 'C02',
     'decided': ['Band::new (empty band of the right shape), add_entry (the band grows, stays inside the matrix, and contains every cell within distance w of the position), add_gap (index-safe, grows; u64 interpolation cannot overflow for any u32 corners - defect D8 fixed), add_kmer (index-safe for every k-mer inside the matrix, grows, stays inside the matrix, contains the k diagonal cells of the k-mer), set_boundaries (index-, underflow- and overflow-safe in all start/end branches; grows), full_matrix (covers every cell), num_cells (exactly the number of banded cells, no overflow below 2^31 rows/cols)',
                 'Band::create_from_match_path: for every k-mer backbone (`chain`: valid indices, k-mers inside the matrix, each continuing its predecessor or starting no earlier than its last cell) the band has the shape (|x|+1) x (|y|+1), stays inside the matrix and contains all k diagonal cells of every k-mer on the path; without matches it is the full matrix',
-                'Band::create_with_matches: same, taking the backbone from sparse::sdpkpp (ASSUMED contract: its path is a backbone); (u32,u32)::continues',
-                'sparse::sdpkpp_union_lcskpp_path: the union of the LCSk++ chain and the SDP chain is again a backbone (so the band builder precondition holds for the union entry point), given the assumed contracts of lcskpp and sdpkpp',
+                'Band::create_with_matches: same, taking the backbone from sparse::sdpkpp (contract proved in unit C19/sdpkpp and restated on a stub: sorted matches, non-negative match score, non-positive gap penalties, u32 score arithmetic); (u32,u32)::continues',
+                'sparse::sdpkpp_union_lcskpp_path: the union of the LCSk++ chain and the SDP chain is again a backbone (so the band builder precondition holds for the union entry point), given the contracts of lcskpp and sdpkpp proved in units C19/lcskpp and C19/sdpkpp',
+                'sparse::lcskpp and sparse::sdpkpp (units shared with C19): the returned path is a non-empty chain of valid indices in which every k-mer continues its predecessor or starts at or after its end in both coordinates; the traceback terminates; no index or u32 overflow failure under the stated bounds',
                 'Traceback::{with_capacity, resize, init, set, get} and TracebackCell (unit shared with C01): after init every cell is start-marked, independent of the previous alignment (reuse history)'],
     'undecided': ['soundness/exactness of the banded DP (compute_alignment), its MAX_CELLS guard, termination of the post-traceback completion, the Aligner::custom_with_* / global / semiglobal / local wrappers',
-                  'sparse::lcskpp, sparse::sdpkpp, find_kmer_matches*, expand_kmer_matches (assumed backbone contract only)'],
-    'trusted': ['cmp::{min,max}, Ord::cmp std specs', 'derived Clone of Range (field-wise)', '[T]::binary_search (weak: Ok(i) only at an equal element) and Result::unwrap_or std specs', 'ASSUMED: sparse::lcskpp / sparse::sdpkpp return a k-mer backbone', 'as C01 for the shared unit'],
+                  'optimality of the chains (score maximal), find_kmer_matches*, expand_kmer_matches'],
+    'trusted': ['cmp::{min,max}, Ord::cmp std specs', 'derived Clone of Range (field-wise)', '[T]::binary_search (weak: Ok(i) only at an equal element) and Result::unwrap_or std specs', 'lcskpp / sdpkpp stubs in C02/band and C02/sparse restate the contracts proved in C19/lcskpp and C19/sdpkpp', 'as C01 for the shared unit'],
     'level_text': 'Verus proves the band geometry layer of the banded aligner (shape, growth, coverage of the whole k-mer backbone, index and overflow safety of all band builders, exact cell count), the union-path builder and the traceback matrix reset; the banded dynamic program itself is not decided by contracts (bounded stand-in only).',
-    'level_note': 'Level other (partial): band construction + traceback reset. Trusted: std specs listed in evidence; assumed backbone contract of the sparse DP.',
+    'level_note': 'Level other (partial): band construction + traceback reset. Trusted: std specs listed in evidence.',
 }
 
 PROPS['C03'] = {
@@ -232,3 +234,7 @@ NOT_APPLICABLE = {
 }
 for _p in ['C01', 'C02', 'C03', 'C04', 'C05', 'C06', 'C07', 'C08', 'C09', 'C12', 'C17', 'C19', 'C20']:
     NOT_APPLICABLE.setdefault(_p, 'check under construction in this build phase (contracts designed in DESIGN.md §4, not yet registered)')
+
+for _p in PROPS.values():
+    if 'decided_extra' in _p:
+        _p['decided'] = list(_p['decided']) + list(_p.pop('decided_extra'))
